@@ -1256,6 +1256,398 @@ def pairs_protocol(ctx, bt, n):
     ctx.protocols.append(("lazy-eager-runs", ncmp, 0 if len(ctx.violations) == nbad0 else len([v for v in ctx.violations[nbad0:] if v["key"].startswith("C19/lazy-run")])))
 
 
+# ------------------------------------------------------------------ (d) lazy / eager twins across dynamic sub-strategies bound with overrides
+# Clause: "a security named only by a string and created on first use behaves exactly like one constructed up front".
+# One trading script is run twice: with the securities named by strings / lazy_add objects (created on first use) and with
+# every one of them constructed up front.  Between setup and the first use of some names a dynamic sub-strategy is attached
+# with parent= and bound with setup_from_parent(**overrides) (its own bid/offer table, coupons, holding costs, free keys).
+# Everything the two trees record must be the same.
+DYN_TICK = ["aa", "bb", "cc", "dd", "ee", "ff"]
+DYN_KW = ["bidoffer", "coupons", "cost_long", "cost_short"]
+
+
+def _dy(rng, lo, hi, unit):
+    """a dyadic number in [lo, hi] (multiples of `unit`): sums of such numbers do not depend on the order of summation"""
+    return unit * rng.randint(int(lo / unit), int(hi / unit))
+
+
+def gen_dyn(rng):
+    cols = rng.sample(DYN_TICK, rng.randint(4, 6))
+    T = rng.randint(5, 8)
+    px = []
+    cur = [_dy(rng, 16, 120, 0.25) for _ in cols]
+    for i in range(T):
+        px.append(list(cur))
+        cur = [max(4.0, c + _dy(rng, -3, 3, 0.25)) for c in cur]
+    fi = int(rng.random() < 0.2)
+    integer = int(rng.random() < 0.5)
+    comm = rng.choice([None, None, 1, 2])
+    has_sub = rng.random() < 0.35
+    omitted = (not has_sub) and rng.random() < 0.2
+
+    def secs(names, plain):
+        out = []
+        for nm in names:
+            kind = 0 if (plain or rng.random() < 0.6) else rng.randint(1, 4)
+            if kind == 0:
+                form = "s" if rng.random() < 0.75 else "z"
+            else:
+                form = "z" if rng.random() < 0.8 else "e"          # "e": constructed up front in both runs (control)
+            out.append([nm, kind, form])
+        return out
+
+    top_names = list(cols) if omitted else rng.sample(cols, rng.randint(2, min(4, len(cols))))
+    top = {"mode": "N" if omitted else "L", "secs": secs(top_names, omitted)}
+    sub = None
+    if has_sub:
+        sub = {"name": "s1", "secs": secs(rng.sample(cols, rng.randint(2, 3)), False)}
+
+    def kwframe(scale):
+        return [_dy(rng, 0.125, 0.5, 0.125) * scale, rng.choice([0.0, 0.125]) * scale, rng.choice([0.0, 0.0625]) * scale]
+
+    # dynamic sub-strategies: where, when, with which children and which overrides
+    n_dyn = 1 if rng.random() < 0.75 else 2
+    rows = sorted(rng.sample(range(1, T - 1), min(n_dyn, T - 2)))
+    dyns = []
+    for k, row in enumerate(rows):
+        path = ["s1"] if (has_sub and rng.random() < 0.35) else []
+        dsecs = secs(rng.sample(cols, 2), False)
+        dyns.append({"row": row, "path": path, "name": "t%d" % (k + 1), "secs": dsecs})
+    need_coupons = any(k in (2, 4) for grp in [top["secs"], (sub or {"secs": []})["secs"]] + [d["secs"] for d in dyns] for _, k, _ in grp)
+    kw = {}
+    if rng.random() < 0.75:
+        kw["bidoffer"] = kwframe(1.0)
+    if need_coupons or rng.random() < 0.25:
+        kw["coupons"] = kwframe(0.5)
+        for key in ("cost_long", "cost_short"):
+            if rng.random() < 0.3:
+                kw[key] = kwframe(0.25)
+    if rng.random() < 0.3:
+        kw["note"] = rng.randint(1, 9)
+    for d in dyns:
+        over = {}
+        r = rng.random()
+        if r < 0.1:
+            pass                                               # bound without overrides
+        else:
+            if rng.random() < (0.8 if "bidoffer" in kw else 0.5):
+                over["bidoffer"] = kwframe(4.0)                # a frame of its own (a new key when the parent has none)
+            if "coupons" in kw and rng.random() < 0.6:
+                over["coupons"] = kwframe(2.0)
+            for key in ("cost_long", "cost_short"):
+                if "coupons" in kw and rng.random() < 0.3:
+                    over[key] = kwframe(1.0)
+            if rng.random() < 0.3:
+                over["note"] = rng.randint(10, 19)
+            if rng.random() < 0.15:
+                over["note2"] = rng.randint(20, 29)
+        d["over"] = over
+
+    # the trades
+    names_at = {(): [s[0] for s in top["secs"]]}
+    if sub:
+        names_at[("s1",)] = [s[0] for s in sub["secs"]]
+    # names kept for a first use after a dynamic sub-strategy was bound at their node
+    late = {}
+    for d in dyns:
+        pool = names_at[tuple(d["path"])]
+        keep = rng.sample(pool, rng.randint(1, len(pool)))
+        late.setdefault(tuple(d["path"]), (d["row"], set()))[1].update(keep)
+    used = {k: set() for k in names_at}
+    ops = [["F", 1000000.0], ["D", 0]]
+
+    def trade(path, row, force_new=False):
+        key = tuple(path)
+        pool = list(names_at[key])
+        if key in late and row < late[key][0] or (key in late and row == late[key][0] and not bound.get(key)):
+            pool = [n for n in pool if n not in late[key][1]]
+        if force_new:
+            fresh = [n for n in pool if n not in used[key]]
+            pool = fresh or pool
+        if not pool:
+            return
+        nm = rng.choice(pool)
+        r = rng.random()
+        if nm in used[key] and r < 0.2:
+            ops.append(["Z", list(path), nm])
+        elif r < 0.55:
+            base = rng.choice([None, 524288.0, 1048576.0]) if not fi else rng.choice([524288.0, 1048576.0])
+            ops.append(["R", list(path), nm, rng.choice([0.125, 0.25, 0.375, 0.25, -0.125]), base])
+        elif r < 0.8:
+            ops.append(["L", list(path), nm, rng.choice([32768.0, 65536.0, 131072.0, -16384.0])])
+        else:
+            ops.append(["T", list(path), nm, rng.choice([128.0, 256.0, 1024.0, -64.0])])
+        used[key].add(nm)
+
+    bound = {}
+    funded = False
+    for row in range(1, T):
+        ops.append(["D", row])
+        if sub and not funded:
+            ops.append(["L", [], "s1", 262144.0])
+            funded = True
+        # some trades may come before the dynamic sub-strategy of the day
+        for _ in range(rng.choice([0, 0, 1])):
+            trade(rng.choice(list(names_at)), row)
+        for d in dyns:
+            if d["row"] == row:
+                ops.append(["N", list(d["path"]), d["name"], d["secs"], d["over"], rng.choice([65536.0, 131072.0])])
+                bound[tuple(d["path"])] = True
+                cn = [s[0] for s in d["secs"]]
+                for nm in rng.sample(cn, rng.randint(1, len(cn))):
+                    if rng.random() < 0.7:
+                        ops.append(["R", list(d["path"]) + [d["name"]], nm, rng.choice([0.5, 0.25, -0.25]), 65536.0])
+                    else:
+                        ops.append(["T", list(d["path"]) + [d["name"]], nm, rng.choice([64.0, -64.0, 256.0])])
+                if rng.random() < 0.5:
+                    ops.append(["D", row])
+        after = [k for k in late if bound.get(k) and [n for n in late[k][1] if n not in used[k]]]
+        for k in after:
+            if rng.random() < 0.8:
+                trade(list(k), row, force_new=True)
+        for _ in range(rng.choice([0, 1, 1, 2])):
+            trade(rng.choice(list(names_at)), row)
+        if rng.random() < 0.6:
+            ops.append(["D", row])
+    return {"fi": fi, "integer": integer, "comm": comm, "cols": cols, "px": px, "top": top, "sub": sub, "kw": kw, "ops": ops}
+
+
+def _dyn_frame(index, cols, d):
+    base, dj, di = d
+    return pd.DataFrame({c: [base + dj * (j % 3) + di * (i % 4) for i in range(len(index))] for j, c in enumerate(cols)}, index=index, columns=list(cols))
+
+
+def _dyn_kwargs(index, cols, kw):
+    return {k: (_dyn_frame(index, cols, v) if k in DYN_KW else v) for k, v in kw.items()}
+
+
+def _dyn_children(bt, secs, variant, mode="L", cols=()):
+    if mode == "N":
+        return None if variant == "lazy" else [bt.Security(c) for c in cols]
+    out = []
+    for nm, kind, form in secs:
+        cls = getattr(bt.core, KINDS[kind])
+        if form == "e" or variant == "eager":
+            out.append(cls(nm))
+        elif form == "s":
+            out.append(nm)
+        else:
+            out.append(cls(nm, lazy_add=True))
+    return out
+
+
+def dyn_execute(bt, spec, variant):
+    """the trading script on the real code; returns (root, error or None, number of first uses after a bound dynamic sub-strategy)"""
+    index = pd.date_range("2021-03-01", periods=len(spec["px"]), freq="D")
+    cols = spec["cols"]
+    data = pd.DataFrame(spec["px"], index=index, columns=list(cols), dtype=float)
+    ch = _dyn_children(bt, spec["top"]["secs"], variant, spec["top"]["mode"], cols)
+    if spec["sub"]:
+        ch = [bt.Strategy(spec["sub"]["name"], [], _dyn_children(bt, spec["sub"]["secs"], variant))] + ch
+    root = (bt.FixedIncomeStrategy if spec["fi"] else bt.Strategy)("p", [], ch)
+    root.use_integer_positions(bool(spec["integer"]))
+    if spec["comm"] is not None:
+        root.set_commissions(COMMS[spec["comm"]])
+    root.setup(data, **_dyn_kwargs(index, cols, spec["kw"]))
+    late_first = 0
+    bound = set()
+
+    def node(path):
+        n = root
+        for p in path:
+            n = n.children[p]
+        return n
+
+    for k, op in enumerate(spec["ops"]):
+        try:
+            kind = op[0]
+            if kind == "F":
+                root.adjust(op[1])
+            elif kind == "D":
+                root.update(index[op[1]])
+            elif kind == "N":
+                par = node(op[1])
+                c = bt.Strategy(op[2], [], _dyn_children(bt, op[3], variant), parent=par)
+                c.setup_from_parent(**_dyn_kwargs(index, cols, op[4]))
+                c.update(par.now)
+                par.allocate(op[5], child=op[2])
+                bound.add(tuple(op[1]))
+            else:
+                n = node(op[1])
+                if tuple(op[1]) in bound and op[2] not in n.children:
+                    late_first += 1
+                if kind == "R":
+                    n.rebalance(op[3], op[2]) if op[4] is None else n.rebalance(op[3], op[2], base=op[4])
+                elif kind == "L":
+                    n.allocate(op[3], child=op[2])
+                elif kind == "T":
+                    n.transact(op[3], child=op[2])
+                elif kind == "Z":
+                    if op[2] in n.children:
+                        n.close(op[2])
+        except Exception as e:  # noqa
+            return root, (k, classify(e)), late_first
+    return root, None, late_first
+
+
+def _arr(x):
+    return np.asarray(pd.Series(x).values if not isinstance(x, pd.Series) else x.values, dtype=float)
+
+
+def dyn_record(bt, root):
+    """{full name: {series name: array | {column: array} | ('raised', class)}} read through the public getters"""
+    c = bt.core
+    out = {}
+
+    def get(n, attr):
+        try:
+            v = getattr(n, attr)
+            if callable(v):
+                v = v()
+        except Exception as e:  # noqa
+            return ("raised", type(e).__name__)
+        if isinstance(v, pd.DataFrame):
+            if isinstance(v.index, pd.MultiIndex):
+                rows = sorted((str(i[0])[:10], str(i[1]), float(r["price"]), float(r["quantity"])) for i, r in v.iterrows())
+                return {"%s|%s" % (a, b): np.asarray([p, q]) for a, b, p, q in rows}
+            return {str(col): np.asarray(v[col].values, dtype=float) for col in v.columns}
+        return np.asarray(v.values, dtype=float)
+
+    try:
+        if root.stale:
+            root.update(root.now)
+    except Exception:  # noqa
+        pass
+    for n in root.members:
+        if n.full_name in out:
+            continue
+        if isinstance(n, c.SecurityBase):
+            fields = ["positions", "values", "prices", "notional_values", "outlays", "bidoffers", "bidoffers_paid"]
+            if isinstance(n, c.CouponPayingSecurity):
+                fields += ["coupons", "holding_costs"]
+        else:
+            fields = ["positions", "cash", "bidoffers_paid", "values", "prices", "notional_values", "fees", "flows", "outlays"]
+            if n is root:
+                fields.append("get_transactions")
+        out[n.full_name] = {f: get(n, f) for f in fields}
+        out[n.full_name]["__kind"] = type(n).__name__
+    return out
+
+
+def dyn_first_difference(ra, rb, integer):
+    """None or (node, series, detail) - `ra` the lazy record, `rb` the eager one"""
+    def cmp(ser, u, v):
+        if isinstance(u, tuple) or isinstance(v, tuple):
+            return None if u == v else "%r vs %r" % (u, v)
+        if isinstance(u, dict) != isinstance(v, dict):
+            return "shape"
+        if isinstance(u, dict):
+            for col in sorted(set(u) | set(v)):
+                x, y = u.get(col), v.get(col)
+                if x is None or y is None:
+                    z = x if y is None else y
+                    if ser in ("positions", "outlays") and not np.any(np.nan_to_num(z) != 0):
+                        continue          # a security that exists in the eager tree only and never traded
+                    return "column %s exists only in the %s tree" % (col, "lazy" if y is None else "eager")
+                d = cmp(ser + "[" + col + "]", x, y)
+                if d:
+                    return "column %s: %s" % (col, d)
+            return None
+        if len(u) != len(v):
+            return "%d rows vs %d" % (len(u), len(v))
+        for i in range(len(u)):
+            a, b = float(u[i]), float(v[i])
+            if ser.startswith("positions") and integer:
+                ok = a == b or (a != a and b != b)
+            else:
+                ok = close(a, b, 1.0)
+            if not ok:
+                return "row %d: %r (created on first use) vs %r (constructed up front)" % (i, a, b)
+        return None
+
+    for name in sorted(set(ra) | set(rb)):
+        x, y = ra.get(name), rb.get(name)
+        if x is None:
+            if "Strategy" in y["__kind"]:
+                return (name, "node", "the strategy exists only in the eager tree")
+            pos = y.get("positions")
+            if not isinstance(pos, tuple) and np.any(np.nan_to_num(pos) != 0):
+                return (name, "node", "holds positions in the eager tree and does not exist in the lazy one")
+            continue
+        if y is None:
+            return (name, "node", "exists only in the lazy tree")
+        for ser in x:
+            if ser == "__kind":
+                if x[ser] != y[ser]:
+                    return (name, "class", "%s vs %s" % (x[ser], y[ser]))
+                continue
+            d = cmp(ser, x[ser], y[ser])
+            if d:
+                return (name, ser, d)
+    return None
+
+
+def dyn_pair(ctx, bt, spec):
+    """the monitor: the run with securities created on first use records what the run with securities constructed up front records"""
+    rd = {"dyn": spec}
+    res = {}
+    for v in ("lazy", "eager"):
+        try:
+            with Budget(30.0):
+                res[v] = dyn_execute(bt, spec, v)
+        except ScriptTimeout:
+            Budget.tripped += 1
+            ctx.violation("C19/dyn-twin:does-not-finish", "the %s run of the trading script did not finish within 30 s" % v, rd)
+            return
+    (lr, le, nlate), (er, ee, _) = res["lazy"], res["eager"]
+    ctx.count("dyn:pairs")
+    ctx.count("dyn:first-uses-after-bound-substrategy", nlate)
+    ctx.count("dyn:outcome:" + ("ok" if le is None else le[1]))
+    n_over = 0
+    for op in spec["ops"]:
+        if op[0] == "N":
+            ctx.count("dyn:substrategies")
+            for k in op[4]:
+                ctx.count("dyn:override:" + k + (":replaces" if k in spec["kw"] else ":new-key"))
+                n_over += 1
+    ctx.classes.add(("dyn", spec["fi"], spec["integer"], spec["comm"], spec["top"]["mode"], spec["sub"] is not None, tuple(sorted(spec["kw"])),
+                     tuple(tuple(sorted(op[4])) + (len(op[1]),) for op in spec["ops"] if op[0] == "N"), nlate > 0, None if le is None else le[1]))
+    if le != ee:
+        ctx.violation("C19/dyn-twin:outcome-differs", "the script with securities created on first use %s, with securities constructed up front %s"
+                      % ("completes" if le is None else "raises %s at op %d %r" % (le[1], le[0], spec["ops"][le[0]][:4]),
+                         "completes" if ee is None else "raises %s at op %d %r" % (ee[1], ee[0], spec["ops"][ee[0]][:4])), rd)
+        return
+    try:
+        with Budget(30.0):
+            ra, rb = dyn_record(bt, lr), dyn_record(bt, er)
+    except ScriptTimeout:
+        Budget.tripped += 1
+        ctx.violation("C19/dyn-twin:does-not-finish", "reading the histories did not finish within 30 s", rd)
+        return
+    d = dyn_first_difference(ra, rb, bool(spec["integer"]))
+    if d is not None:
+        dyn_desc = ["%s under %s bound with setup_from_parent(%s)" % (op[2], ">".join(["p"] + op[1]), ", ".join(sorted(op[4]))) for op in spec["ops"] if op[0] == "N"]
+        ctx.violation("C19/dyn-twin:%s-differ" % d[1].replace("get_transactions", "transactions"),
+                      "%s.%s: %s; same trading script, the securities named by strings / lazy_add and created on first use in one run, constructed up front "
+                      "in the other; dynamic sub-strategies: %s" % (d[0], d[1], d[2], "; ".join(dyn_desc)), rd)
+    else:
+        ctx.count("dyn:equal")
+
+
+def dyn_protocol(ctx, bt, n):
+    nbad0 = len(ctx.violations)
+    done = 0
+    for _ in range(n):
+        if Budget.tripped >= 3:
+            break
+        spec = gen_dyn(ctx.rng)
+        ctx.evaluations += 1
+        dyn_pair(ctx, bt, spec)
+        done += 1
+    ctx.protocols.append(("lazy-eager-dynamic-overrides", done, len([v for v in ctx.violations[nbad0:] if v["key"].startswith("C19/dyn-twin")])))
+
+
+
 # ------------------------------------------------------------------ entry points
 def corpus_cases():
     here = os.path.dirname(os.path.dirname(os.path.dirname(os.path.abspath(__file__))))
@@ -1283,6 +1675,8 @@ def replay_case(ctx, bt, case):
             ctx.disagreement("corr:wiring:structure", {"real": real_answer(run)[:300], "model": ans[:300]}, {"script": sc})
     elif "run_spec" in case:
         paired_run(ctx, bt, case["run_spec"])
+    elif "dyn" in case:
+        dyn_pair(ctx, bt, case["dyn"])
 
 
 def run(ctx, bt):
@@ -1294,6 +1688,7 @@ def run(ctx, bt):
     ill = [gen_script(ctx.rng, ill=True) for _ in range(ctx.scale(150, 2500))]
     wiring_protocol(ctx, bt, ill, "wiring-illformed")
     pairs_protocol(ctx, bt, ctx.scale(60, 800))
+    dyn_protocol(ctx, bt, ctx.scale(60, 1500))
 
 
 def search(ctx, bt):
